@@ -116,6 +116,23 @@ class Cond:
         return None
 
 
+def int_switch_facts(body, d, s_, is_a):
+    """Facts about an integer operand satisfying is_a on the edge d->s_ of a `match n { v1 => .., v2 => .., _ => .. }`
+    with several listed values: [("Eq", v)] on a value edge, [("Ne", v1), ("Ne", v2) ..] on the otherwise edge."""
+    t = body.term(d)
+    if t["k"] != "switch" or t.get("ty") == "bool" or len(t["targets"]) < 2:
+        return []
+    si = body.switch_info(d)
+    if si is None or si["kind"] != "int" or not is_a(t["op"]):
+        return []
+    vals = [v for v, x in t["targets"] if x == s_ and isinstance(v, int)]
+    if s_ == t["otherwise"] and not vals:
+        return [("Ne", v) for v, _ in t["targets"] if isinstance(v, int)]
+    if len(vals) == 1 and s_ != t["otherwise"]:
+        return [("Eq", vals[0])]
+    return []
+
+
 def dominating_edges(body, bb):
     """[(branch_bb, succ)] such that every path to bb goes through edge branch_bb->succ."""
     out = []
